@@ -31,8 +31,10 @@ pub fn run(c: &Case, rep: &mut Report) {
             return;
         }
     };
-    let mut m = Model { dedup: coll == "types", has_find: coll == "types" || coll == "imports" || coll == "exports", no_delete: coll == "locals", vals: vec![], dead: vec![] };
+    let mut m = Model { dedup: coll == "types", has_find: coll == "types" || coll == "imports" || coll == "exports" || coll == "funcs", no_delete: coll == "locals", vals: vec![], dead: vec![] };
     let mut steps = 0;
+    // functions renamed through get_mut are no longer found under the name their value gave them
+    let mut renamed: Vec<usize> = Vec::new();
     for (step, s) in syms.chars().enumerate() {
         let got = match end.str(&format!("s{}", step)) {
             Some(g) => g,
@@ -62,6 +64,9 @@ pub fn run(c: &Case, rep: &mut Report) {
                 } else {
                     let has_name = !matches!(coll, "exports" | "imports" | "locals" | "customs");
                     want.push_str(&format!("rename id#{} {}", k, if has_name { "done" } else { "n/a" }));
+                    if has_name && coll == "funcs" {
+                        renamed.push(k);
+                    }
                 }
             }
             _ => {
@@ -92,7 +97,13 @@ pub fn run(c: &Case, rep: &mut Report) {
         want.push_str(" | find:");
         if m.has_find {
             for v in 0..4u32 {
-                match (0..m.vals.len()).find(|k| !m.dead[*k] && m.vals[*k] == v) {
+                // functions: odd values carry the name "n<v>", even values are anonymous; the lookup for an even
+                // value asks for the empty name, which no function has
+                if coll == "funcs" && v % 2 == 0 {
+                    want.push_str(" -");
+                    continue;
+                }
+                match (0..m.vals.len()).find(|k| !m.dead[*k] && m.vals[*k] == v && !(coll == "funcs" && renamed.contains(k))) {
                     Some(k) => want.push_str(&format!(" {}", k)),
                     None => want.push_str(" -"),
                 }
